@@ -1,8 +1,14 @@
 import PedalModel.DriverLoop
+import PedalModel.SandboxIO
 open Pedal
 
-/- Line-protocol driver for C15: replace the stub dispatch with the model's request handlers. -/
+/- Line-protocol driver for C15 (sandbox output / input bookkeeping). -/
 def dispatch : List String → String
+  | "hist" :: ts => SandboxIO.handleHist ts
+  | "lines" :: ts => SandboxIO.handleLines ts
+  | "rstrip" :: ts => SandboxIO.handleRstrip ts
+  | "split" :: ts => SandboxIO.handleSplit ts
+  | "spaces" :: ts => SandboxIO.handleSpaces ts
   | _ => "bad-request"
 
 def main : IO Unit := driverMain dispatch
